@@ -144,7 +144,8 @@ PROPS = {
                     "type later uses of x are checked against is e's type (dynamic if e has none).  RETURN TYPES (unit return_fixpoint): every "
                     "refinement pass re-infers EVERY function of the block, so a signature first inferred from not-yet-typed callees is corrected; a "
                     "`return` whose expression mentions a name the function binds itself (parameter, local, nested function) is Dynamic whatever a "
-                    "same-named outer declaration's type is (no false rejection).  "
+                    "same-named outer declaration's type is (no false rejection); expr_mentions (unit bound_names, the real recursive function) reports every "
+                    "expression whose type can depend on such a name and never a literal or a string, whose type is fixed.  "
                     "STATEMENTS (unit resolver_stmt): a variable reference is UndeclaredIdentifier and `x get e` is AssignmentToUndeclared exactly "
                     "when no such variable is in scope (e is checked either way), and afterwards the variable's recorded type is the assigned value's type or Dynamic -- never a type it no longer has; an if checks its condition under the boolean rule and both "
                     "branches at its own loop depth; a jasi checks its body -- and only its body -- one loop level deeper and restores the depth; check_block opens the block's three "
@@ -298,7 +299,8 @@ PROPS = {
                     "see the block's variables; the block's functions are hoisted before its first statement.  Activations (unit block_exec, the head and tail "
                     "of eval_function_call): a call pushes a mark naming the function and the parameter scope it just opened, and removes exactly "
                     "that mark on every way out; lookups by local id stop at the newest mark of the local's owner, so another activation's instance "
-                    "is never read or written (the searches themselves are iterator chains: read off the text, DESIGN 0.5)."),
+                    "is never read or written (the searches themselves are iterator chains Verus does not accept: bounded Kani contract "
+                    "K:runtime:local_lookup__newest_activation_of_owner over 3 scopes x 2 slots with symbolic ids, owners and marks)."),
         "not_covered": ("that resolver ids and the dynamic scope search compose to lexical scoping under recursion (needs an invariant "
                         "relating the activation stack to the scope tree across eval_function_call), argument evaluation order, "
                         "per-block predeclaration, assign/define_bound_local (Value's recursive drop glue explodes in CBMC), function tables (user_call_callee, function_by_body)."),
